@@ -20,8 +20,9 @@ Tr == ndJsonDeserialize(IOEnv.TRACE)
 VARIABLES l, fs, objs, errloc, diverged,
           gposts,      \* process-wide drop-in postfix list (econf_set_conf_dirs); <<>> = default
           sec,         \* TRUE while a process-wide restriction may be in force (not modelled here: Security.tla)
-          lw           \* the last econf_writeFile: [path, known] - the snapshot that follows must show the predicted bytes
-vars == <<l, fs, objs, errloc, diverged, gposts, sec, lw>>
+          lw,          \* the last econf_writeFile: [path, known] - the snapshot that follows must show the predicted bytes
+          unk          \* paths written from an Opaque object: they exist, their content is not predicted (until a snapshot shows it)
+vars == <<l, fs, objs, errloc, diverged, gposts, sec, lw, unk>>
 Handles == 0..63
 Opaque == [opaque |-> TRUE]
 NoObjs == [h \in Handles |-> Null]
@@ -30,8 +31,8 @@ EmptyFs == [p \in {} |-> <<>>]
 \* read it holds whatever the last scanned line happened to be (an empty file does not even reset the line number)
 NoLoc == [file |-> <<>>, line |-> 0, valid |-> FALSE]
 NoWrite == [path |-> <<>>, known |-> FALSE]
-Init == l = 1 /\ fs = EmptyFs /\ objs = NoObjs /\ errloc = NoLoc /\ diverged = FALSE /\ gposts = <<>> /\ sec = FALSE /\ lw = NoWrite
-Globals == <<gposts, sec, lw>>
+Init == l = 1 /\ fs = EmptyFs /\ objs = NoObjs /\ errloc = NoLoc /\ diverged = FALSE /\ gposts = <<>> /\ sec = FALSE /\ lw = NoWrite /\ unk = {}
+Globals == <<gposts, sec, lw, unk>>
 IsEvent(e) == l <= Len(Tr) /\ Tr[l].e = e /\ l' = l + 1
 Ev == Tr[l]
 Mismatch(what) == PrintT(ToJson([mismatch |-> l, spec |-> what]))
@@ -43,9 +44,9 @@ Has(f) == f \in DOMAIN Ev
 FsPut(f, p, lines) == [q \in DOMAIN f \cup {p} |-> IF q = p THEN lines ELSE f[q]]
 NormO(o) == IF o = <<>> THEN <<<<>>>> ELSE o
 
-TReset == IsEvent("reset") /\ fs' = EmptyFs /\ objs' = NoObjs /\ errloc' = NoLoc /\ diverged' = FALSE /\ gposts' = <<>> /\ sec' = FALSE /\ lw' = NoWrite
+TReset == IsEvent("reset") /\ fs' = EmptyFs /\ objs' = NoObjs /\ errloc' = NoLoc /\ diverged' = FALSE /\ gposts' = <<>> /\ sec' = FALSE /\ lw' = NoWrite /\ unk' = {}
 \* a file as it is on disk; `check`: the snapshot right after an econf_writeFile must show what the specification predicted
-TFile == /\ IsEvent("file") /\ fs' = FsPut(fs, Ev.path, Ev.lines) /\ UNCHANGED <<objs, errloc, gposts, sec>> /\ lw' = NoWrite
+TFile == /\ IsEvent("file") /\ fs' = FsPut(fs, Ev.path, Ev.lines) /\ UNCHANGED <<objs, errloc, gposts, sec>> /\ lw' = NoWrite /\ unk' = unk \ {Ev.path}
          /\ IF Has("check") /\ Ev.check /\ lw.known /\ lw.path = Ev.path
             THEN Check(fs[Ev.path] = Ev.lines, [written |-> fs[Ev.path]]) ELSE UNCHANGED diverged
 FsDrop(f, P) == [q \in DOMAIN f \ P |-> f[q]]
@@ -59,6 +60,7 @@ TNewOpt == /\ IsEvent("newopt") /\ UNCHANGED <<fs, errloc, Globals>>
               /\ Check(Ev.rc = r.rc, [rc |-> r.rc])
 \* while restrictions may be in force, or when the caller's callback refused a file, the outcome of a read is not predicted
 Unpredicted == sec \/ (Has("cb") /\ Ev.cb /\ Ev.rc = "ECONF_PARSING_CALLBACK_FAILED")
+               \/ (IF Ev.e = "readfile" THEN Ev.path \in unk ELSE unk # {})       \* a file of unknown content may be consulted
 AfterRead(h, obj) == IF h = 0 THEN objs ELSE [objs EXCEPT ![h] = obj]
 TReadFile == /\ IsEvent("readfile")
              /\ IF Unpredicted
@@ -141,8 +143,12 @@ TMerge == /\ IsEvent("merge") /\ UNCHANGED <<fs, errloc, Globals>>
              ELSE /\ objs' = [objs EXCEPT ![Ev.h] = MergeObjects(objs[Ev.a], objs[Ev.b])]
                   /\ Check(Ok(Ev.rc), [rc |-> "ECONF_SUCCESS"])
 TWrite == /\ IsEvent("write") /\ UNCHANGED <<objs, errloc, gposts, sec>>
+          \* (an object WITHOUT delimiter tag - an option object used as a plain object, a merge based on one - is written with NUL
+          \* bytes in the delimiter's place: such a file is outside the conventional grammar, reads of it are not predicted)
+          /\ unk' = IF Live(Ev.h) /\ Ok(Ev.rc) /\ (~Known(Ev.h) \/ objs[Ev.h].d = 0) THEN unk \cup {Ev.path}
+                    ELSE IF Known(Ev.h) /\ Ok(Ev.rc) THEN unk \ {Ev.path} ELSE unk
           /\ IF ~Live(Ev.h) THEN UNCHANGED fs /\ lw' = NoWrite /\ Check(~Ok(Ev.rc), [refused |-> TRUE])
-             ELSE IF ~Known(Ev.h) THEN fs' = FsDrop(fs, {Ev.path}) /\ lw' = NoWrite /\ UNCHANGED diverged
+             ELSE IF ~Known(Ev.h) THEN fs' = (IF Ok(Ev.rc) THEN FsPut(fs, Ev.path, <<>>) ELSE fs) /\ lw' = NoWrite /\ UNCHANGED diverged
              ELSE IF Has("dir_ok") /\ ~Ev.dir_ok THEN UNCHANGED fs /\ lw' = NoWrite /\ Check(~Ok(Ev.rc), [refused |-> TRUE])     \* no such directory
              ELSE /\ fs' = FsPut(fs, Ev.path, WriteLines(objs[Ev.h])) /\ lw' = [path |-> Ev.path, known |-> TRUE]
                   /\ Check(Ok(Ev.rc), [rc |-> "ECONF_SUCCESS"])
@@ -157,7 +163,10 @@ TDump == /\ IsEvent("dump") /\ UNCHANGED <<fs, objs, errloc, Globals>>
                      \* objects parsed with an EMPTY delimiter set are lists of keys: their values are not specified (C02)
                      want == IF Has("cmp_values") /\ ~Ev.cmp_values
                              THEN [want0 EXCEPT !.ents = [i \in 1..Len(want0.ents) |-> [want0.ents[i] EXCEPT !.v = <<>>]]] ELSE want0 IN
-                 Check(~Ev.isnull /\ Ev.st = want /\ ((Has("cmp_path") /\ ~Ev.cmp_path) \/ Ev.path = objs[Ev.h].path), [st |-> want, path |-> objs[Ev.h].path])
+                 \* tags: the delimiter and comment characters econf_writeFile will use (0 = none: option objects, merges based on them)
+                 Check(~Ev.isnull /\ Ev.st = want /\ ((Has("cmp_path") /\ ~Ev.cmp_path) \/ Ev.path = objs[Ev.h].path)
+                       /\ (Has("tags") => Ev.tags = <<objs[Ev.h].d, objs[Ev.h].c>>),
+                       [st |-> want, path |-> objs[Ev.h].path, tags |-> <<objs[Ev.h].d, objs[Ev.h].c>>])
 TErrLoc == /\ IsEvent("errloc") /\ UNCHANGED <<fs, objs, errloc, Globals>>
            /\ Check(errloc.valid => (Ev.file = errloc.file /\ Ev.line = errloc.line), errloc)
 \* econf_getExtValue on an entry that stems from a parsed file and is still in an object with that file's path
@@ -185,9 +194,9 @@ TGroups == /\ IsEvent("groups") /\ UNCHANGED <<fs, objs, errloc, Globals>>
 \* econf_set_delimiter_tag / econf_set_comment_tag: what econf_writeFile will use
 TSetTag == /\ IsEvent("settag") /\ UNCHANGED <<fs, errloc, diverged, Globals>>
            /\ objs' = IF Known(Ev.h) THEN [objs EXCEPT ![Ev.h] = IF Ev.which = "d" THEN [@ EXCEPT !.d = Ev.tag] ELSE [@ EXCEPT !.c = Ev.tag]] ELSE objs
-TSetConfDirs == IsEvent("setconfdirs") /\ gposts' = Ev.dirs /\ UNCHANGED <<fs, objs, errloc, diverged, sec, lw>>
-TSecFlag == IsEvent("secflag") /\ sec' = TRUE /\ UNCHANGED <<fs, objs, errloc, diverged, gposts, lw>>
-TSecReset == IsEvent("secreset") /\ sec' = FALSE /\ UNCHANGED <<fs, objs, errloc, diverged, gposts, lw>>
+TSetConfDirs == IsEvent("setconfdirs") /\ gposts' = Ev.dirs /\ UNCHANGED <<fs, objs, errloc, diverged, sec, lw, unk>>
+TSecFlag == IsEvent("secflag") /\ sec' = TRUE /\ UNCHANGED <<fs, objs, errloc, diverged, gposts, lw, unk>>
+TSecReset == IsEvent("secreset") /\ sec' = FALSE /\ UNCHANGED <<fs, objs, errloc, diverged, gposts, lw, unk>>
 \* a call that is outside the modelled fragment: h (if any) is not predicted any more
 \* a call with a missing out-pointer / delimiter set must be refused and changes nothing
 TRefused == IsEvent("refused") /\ UNCHANGED <<fs, objs, errloc, Globals>> /\ Check(~Ok(Ev.rc), [refused |-> TRUE])
